@@ -368,6 +368,9 @@ private:
                     nextc();
                     c = current();
                     if (c == '/') {
+                        /* '..' directly below the root: drop it, keep the root */
+                        if (mPos.l <= mRootLength)
+                            continue;
                         /* Skip 'dir/../' */
                         nextc();
                         skips(false);
